@@ -24,7 +24,9 @@ RULE = ("part 'format': Eliot messages (metadata + action/message typing + field
         "must contain every leaf token otherwise. part 'cli': mixed byte streams (Eliot lines, arbitrary bytes, non-JSON text, JSON "
         "scalars/arrays/null/strings, objects lacking required fields, messages whose text holds surrogate escapes) are piped through the eliot-prettyprint entry point in a "
         "subprocess: exit status 0, one record per input line in order, Eliot lines rendered as the API renders them, every other "
-        "line reported as 'Not JSON' / 'Not an Eliot message'. part 'filter': python -m eliot.filter with J reproduces every "
+        "line reported as 'Not JSON' / 'Not an Eliot message'. Both parts run in processes whose local time zone is one of five POSIX zones (offsets from -11 h to +12:45): the default rendering "
+        "stays UTC; with local_timezone=True / --local-timezone the timestamp is the local time without the Z and nothing else changes. "
+        "part 'filter': python -m eliot.filter with J reproduces every "
         "message, with SKIP drops exactly the selected ones. non-trivial = message with a multi-line/escape-requiring string or "
         "nesting, or a stream with >=2 kinds of foreign lines; distinct by hash of message / stream")
 ASSUMPTIONS = ["field names contain no whitespace and no '=' (otherwise the compact form is ambiguous to any reader)",
@@ -199,11 +201,42 @@ def check_pretty(m, out, problems):
         problems.append("pretty output has unexpected trailing lines %r" % rest[:3])
 
 
+ZONES = [("UTC0", 0), ("IST-5:30", 330), ("NST3:30", -210), ("CHAST-12:45", 765), ("XYZ11", -660)]  # POSIX TZ strings: no tz database needed
+
+
 def run_format(spec, res):
+    import time as _time
+    # the process runs in some local time zone (this case's own forked process): the default rendering is UTC all the same
+    zname, zoff = ZONES[(spec["lo"] // 250) % len(ZONES)]
+    os.environ["TZ"] = zname
+    _time.tzset()
+    res["sets"].setdefault("process_time_zones", []).append(zname)
     for i in range(spec["lo"], spec["hi"]):
         rng = random.Random("%s:C20:f:%d" % (spec["seed"], i))
         m = gen_message(rng)
         problems = []
+        if i % 4 == 0:
+            # local_timezone=True: the same rendering with the timestamp in the process's local time and without the Z
+            try:
+                want = (datetime.datetime.fromtimestamp(m["timestamp"], tz=datetime.timezone.utc) + datetime.timedelta(minutes=zoff)).replace(tzinfo=None).isoformat(sep="T")
+            except (OverflowError, ValueError):
+                want = None  # the local time lies outside datetime's range (the last hours of year 9999)
+            try:
+                if want is None:
+                    raise StopIteration
+                loc = compact_format(dict(m), True)
+                utc = compact_format(dict(m))
+                head = m["task_uuid"] + "/" + "/".join(str(x) for x in m["task_level"]) + " "
+                ts = loc[len(head):].split(" ", 1)[0]
+                if ts != want:
+                    problems.append("local_timezone rendering shows %r in zone %s, expected %r" % (ts, zname, want))
+                if loc[len(head) + len(ts):] != utc[len(head) + len(utc[len(head):].split(" ", 1)[0]):]:
+                    problems.append("local_timezone rendering differs from the UTC one in more than the timestamp")
+                res["counters"]["local_timezone_renderings"] = res["counters"].get("local_timezone_renderings", 0) + 1
+            except StopIteration:
+                pass
+            except BaseException as e:
+                problems.append("compact_format(local_timezone=True) raised %r" % (e,))
         for name, fn, chk in (("compact_format", compact_format, check_compact), ("pretty_format", pretty_format, check_pretty)):
             try:
                 out = fn(dict(m))
@@ -287,8 +320,20 @@ def run_cli(spec, res):
         data = b"".join(l[2] + b"\n" for l in lines)
         if rng.random() < 0.2 and lines[-1][2].strip() != b"":
             data = data[:-1]  # last line without newline
-        env = dict(os.environ, PYTHONPATH=REPO, PYTHONIOENCODING="utf-8", PYTHONWARNINGS="ignore")
-        cmd = [sys.executable, "-c", "from eliot.prettyprint import _main; _main()"] + (["-c"] if compact else [])
+        import time as _time
+        zname, zoff = rng.choice(ZONES)
+        local = rng.random() < 0.25
+        os.environ["TZ"] = zname  # the reference rendering below is computed in the same zone as the command runs in
+        _time.tzset()
+        env = dict(os.environ, PYTHONPATH=REPO, PYTHONIOENCODING="utf-8", PYTHONWARNINGS="ignore", TZ=zname)
+        cmd = [sys.executable, "-c", "from eliot.prettyprint import _main; _main()"] + (["-c"] if compact else []) + (["--local-timezone"] if local else [])
+        if local:
+            # (timestamps whose local time would leave datetime's range are kept out of such streams)
+            for l in lines:
+                if l[0] == "eliot" and l[1]["timestamp"] > 2.5e11:
+                    l[1]["timestamp"] = 1e9 + 0.25
+            lines = [(l[0], l[1], json.dumps(l[1], ensure_ascii=True).encode("utf-8")) if l[0] == "eliot" else l for l in lines]
+            data = b"".join(l[2] + b"\n" for l in lines)
         try:
             p = subprocess.run(cmd, input=data, capture_output=True, env=env, timeout=120)
         except subprocess.TimeoutExpired:
@@ -304,7 +349,7 @@ def run_cli(spec, res):
         processed = 0
         for kind, a, enc in lines:
             if kind == "eliot":
-                want = fmt(json.loads(enc)) + "\n"
+                want = fmt(json.loads(enc), local) + "\n"
                 if not out.startswith(want, pos):
                     problems.append("record %d: Eliot message not rendered as the API renders it (found %r)" % (processed, out[pos:pos + 80]))
                     break
